@@ -189,7 +189,7 @@ def run(chk, replay=None):
     # catalog N-test: empirical law
     import os
     path = os.path.join(chk.tmp, 'c07.csv')
-    for t in range(40 if quick else 400):
+    for t in range(40 if quick else 3000):
         ncat = rng.randint(1, 12)
         sizes = [rng.choice([0, 1, 1, 2, 3, 3, 5]) for _ in range(ncat)]
         u = 0
